@@ -13,6 +13,8 @@ from vfw.exactlp import LP, frac
 
 PROPERTY_ID = "C18"
 RULE = (
+    "[since C18-5: one spec in five has a trace requirement - a biomass coefficient of 1e-3, 1e-4 or 2e-5; cases whose "
+    "trace import is below 1e-5 are undetermined] "
     "Generator: two-compartment ModelSpecs with 1-6 exchange reactions 'EX_*' written 'met -->' (uptake = negative "
     "flux) or '--> met' (uptake = positive flux), coefficient 1 or 2, recognised through the external compartment "
     "(ids e / out / extracellular), with or without an SBO:0000627 annotation (string, lower case, list), or by the "
@@ -142,6 +144,10 @@ def model_specs(draw, forced_one_in=30):
     pool = importable if len(importable) >= k_req and draw(st.integers(0, 3)) > 0 else cmets
     req = draw(st.lists(st.sampled_from(pool), min_size=k_req, max_size=k_req, unique=True))
     bio = {m: -draw(st.sampled_from([1, 1, 2, 3, 0.5])) for m in req}
+    if draw(st.integers(0, 4)) == 0:
+        # a trace requirement (cofactor-like biomass coefficient): the import it needs is orders of magnitude below the
+        # other imports but well above the solver tolerance (since seeded change C18-5)
+        bio[draw(st.sampled_from(req))] = -draw(st.sampled_from([1e-3, 1e-4, 2e-5]))
     rest = [m for m in cmets if m not in req]
     if rest and draw(st.integers(0, 2)) > 0:  # by-product that has to leave the cell
         out_pool = [m for m in rest if m in exportable]
@@ -622,12 +628,36 @@ def check_minimal(case, ctx, model, ex, classes, rich):
         verdict = "undetermined"
     classes.append(f"exact-{verdict}")
 
+    trace = min((abs(c) for r in spec["rxns"] if r["id"] == "BIOMASS" for c in r["mets"].values()), default=1)
+    if trace < 0.01:
+        classes.append("trace-requirement")
+        if opt is not None and F(trace) * min(exact_value, opt) < F(1, 100000):
+            # the import the trace component needs is within two orders of the solver tolerance: a medium without it is
+            # as good as one with it for the solver, nothing can be asserted
+            return {"nontrivial": False, "classes": sorted(set(classes + ["trace-requirement-below-resolution"])), "undetermined": 1}
     kwargs = {"exports": exports, "minimize_components": mc, "open_exchanges": oe}
     call = f"minimal_medium(model, {'' if mode == 'default' else repr(value) + ', '}" + ", ".join(f"{k}={v!r}" for k, v in kwargs.items()) + ")"
+    points = []
+    restore = _record_solver_points(points)
     try:
         res = minimal_medium(model, **kwargs) if mode == "default" else minimal_medium(model, value, **kwargs)
     except Exception as e:  # noqa: BLE001
         _v("minimal:raised", f"{call} raised {type(e).__name__}: {str(e)[:200]} (exact optimum {opt})")
+    finally:
+        restore()
+    # The point the solver handed back when a medium was read off it must itself be a flux distribution of the
+    # constrained problem. GLPK's MIP presolver reasons about bounds with an absolute tolerance of 1e-3 and returns, with
+    # status optimal, points that violate the objective constraint by orders of magnitude when a needed import is smaller
+    # than that (known finding glpk-mip-infeasible-point): such a case says nothing about minimal_medium's own logic.
+    if res is not None and verdict == "reachable":
+        for k, pt in enumerate(points):
+            why = _point_infeasible(spec, bounds, pt, value)
+            if why:
+                if "glpk-mip-infeasible-point" in ctx.known:
+                    ctx.excluded_by("glpk-mip-infeasible-point")
+                    return {"nontrivial": False, "classes": sorted(set(classes + ["solver-point-infeasible"])), "undetermined": 1}
+                _v("minimal:solver-point-infeasible", f"{call}: the solver reported optimal for solve #{k} but the point it returned is not a "
+                                                      f"flux distribution of the problem: {why}; result {_short_res(res)}")
     undetermined = 0
     if res is None:
         if verdict == "reachable":
@@ -693,7 +723,10 @@ def check_minimal(case, ctx, model, ex, classes, rich):
         fresh = build.build_model(spec2, case["path"])
         fresh.medium = dict(pos)
         growth = fresh.slim_optimize()
-        if not (isinstance(growth, float) and growth >= float(target) - TOL * max(1.0, abs(value))):
+        # every import the solver reported may be off by its feasibility tolerance: for a trace import that is a
+        # visible fraction of the objective it supports
+        loss = min(0.5, sum(TOL / v for v in pos.values() if v < 1)) if trace < 0.01 else 0.0
+        if not (isinstance(growth, float) and growth >= float(target) * (1 - loss) - TOL * max(1.0, abs(value))):
             _v("minimal:roundtrip-insufficient", f"{tag}: a fresh model with model.medium = {pos} optimises to {growth!r}, "
                                                  f"requested {value!r} (exact optimum under the reference semantics: {float(reach)!r})")
         # (4) minimality
@@ -752,6 +785,56 @@ def check_minimal(case, ctx, model, ex, classes, rich):
     if undetermined:
         out["undetermined"] = undetermined
     return out
+
+
+def _record_solver_points(points):
+    """Parent-side wrapper (no source hook): every time minimal_medium reads a medium off the solver the fluxes of all
+    reactions at that moment are appended to `points`. Returns the function that removes the wrapper. If the module has
+    no such helper any more nothing is recorded (the relation that depends on it is then simply not evaluated)."""
+    import sys
+
+    import cobra.medium  # noqa: F401 - the package attribute of that name is the function, the module is in sys.modules
+
+    mm = sys.modules["cobra.medium.minimal_medium"]
+    orig = getattr(mm, "_as_medium", None)
+    if orig is None:
+        return lambda: None
+
+    def wrapper(exchanges, *a, **k):
+        try:
+            ex = list(exchanges)
+            if ex and ex[0].model is not None:
+                points.append({r.id: float(r.flux) for r in ex[0].model.reactions})
+        except Exception:  # noqa: BLE001 - observation only
+            pass
+        return orig(exchanges, *a, **k)
+
+    mm._as_medium = wrapper
+
+    def restore():
+        mm._as_medium = orig
+
+    return restore
+
+
+def _point_infeasible(spec, bounds, pt, value):
+    """None if the float point satisfies steady state, the bounds and objective >= value within 1e-6 (scaled), else what fails."""
+    scale = max([1.0] + [abs(v) for v in pt.values()])
+    for r in spec["rxns"]:
+        v = pt.get(r["id"])
+        if v is None:
+            return None  # not a point of this model (wrapper saw something else): no statement
+        lb, ub = (float(b) for b in bounds[r["id"]])
+        if v < lb - 1e-6 * max(1.0, abs(lb)) or v > ub + 1e-6 * max(1.0, abs(ub)):
+            return f"{r['id']} = {v!r} outside its bounds ({lb!r}, {ub!r})"
+    for m in spec["mets"]:
+        res = sum(float(r["mets"][m["id"]]) * pt[r["id"]] for r in spec["rxns"] if m["id"] in r["mets"])
+        if abs(res) > 1e-6 * scale:
+            return f"steady state of {m['id']} violated by {res!r}"
+    obj = sum(float(c) * pt[rid] for rid, c in spec["objective"].items())
+    if obj < value - 1e-6 * max(1.0, abs(value)):
+        return f"objective {obj!r} below the required {value!r}"
+    return None
 
 
 def _short_res(res):
